@@ -218,6 +218,13 @@ def run(pid, tier, seed):
                 specs["interleave-mid"] = dict(spec="RawTrace", cfgfile="RawTrace.cfg", par=1)
             groups.append((dict(raw_checks.BP_CFG), il, "interleave", None))
             specs["interleave"] = dict(spec="RawTrace", cfgfile="RawTrace.cfg", par=2)
+        if pid in ("C06", "C10"):
+            # a burst of far more than a thousand fragments (some of them parts of split requests) for a node whose kernel
+            # buffers are nearly full: every fragment arrives, once, in order
+            import raw_checks
+            sb = [raw_checks.split_burst_scenario("split-burst-%d" % kb, kb) for kb in ((200, 230, 245, 260) if q else (60, 100, 120, 150, 180, 200, 215, 230, 245, 260, 275, 290))]
+            groups.append((dict(raw_checks.BP_CFG_MID, rawLog=False), sb, "sburst", None))
+            specs["sburst"] = dict(spec="OrderTrace", cfgfile="OrderTrace.cfg", par=3)
         if pid == "C10":
             # the same order requirement with the node not reading: the proxy's outbound buffer for the node spills
             # beyond its static part and drains piecewise while the client keeps sending (8 KB socket buffers)
@@ -277,6 +284,9 @@ def run(pid, tier, seed):
                     v = dict(v, prop="C03", code="slow-reader:" + v["code"])
                 if tag == "cbacklog" and v["code"] in ("replies-missing", "replies-out-of-step"):
                     v = dict(v, prop=pid, code="slow-reader:" + v["code"])
+                if tag == "sburst" and v["code"] in ("requests-lost-or-duplicated-on-the-way-to-the-node", "node-order", "command-of-no-request",
+                                                     "request-stream-to-node-corrupted", "replies-missing"):
+                    v = dict(v, prop=pid, code="burst-behind-a-full-socket:" + v["code"])
                 if tag in ("bp", "bp2") and (v["code"].startswith("request-") or v["code"] == "malformed-request-forwarded"):
                     v = dict(v, prop="C10", code="request-stream-to-node-corrupted:" + v["code"])
                 if v["prop"] == pid or v["prop"] == "DEAD":
